@@ -1,0 +1,206 @@
+//go:build verif
+
+package logical
+
+import (
+	"math/big"
+	"strconv"
+	"time"
+
+	"com.tuntun.rangers/node/src/common"
+	"com.tuntun.rangers/node/src/consensus/groupsig"
+	"com.tuntun.rangers/node/src/consensus/model"
+	"com.tuntun.rangers/node/src/consensus/vrf"
+	"com.tuntun.rangers/node/src/middleware/log"
+	"com.tuntun.rangers/node/src/middleware/types"
+)
+
+// verif hook H3 (signing round + VRF qualification): in-package constructors
+// and exports used by the verification harness only.
+
+// verifChain is the block chain a signing round sees in the harness: nothing
+// is on chain unless the harness says so.
+type verifChain struct {
+	existing map[common.Hash]*types.Block
+}
+
+func (c *verifChain) CastBlock(time.Time, uint64, *big.Int, common.Hash, uint64, []byte, []byte) (types.BlockHeader, bool) {
+	return types.BlockHeader{}, false
+}
+func (c *verifChain) GenerateBlock(bh types.BlockHeader) *types.Block           { return nil }
+func (c *verifChain) VerifyBlock(bh *types.BlockHeader) ([]common.Hashes, int8) { return nil, 0 }
+func (c *verifChain) AddBlockOnChain(b *types.Block) types.AddBlockResult {
+	return types.AddBlockFailed
+}
+func (c *verifChain) Height() uint64                                 { return 0 }
+func (c *verifChain) TotalQN() uint64                                { return 0 }
+func (c *verifChain) TopBlock() *types.BlockHeader                   { return nil }
+func (c *verifChain) QueryBlockByHash(hash common.Hash) *types.Block { return c.existing[hash] }
+func (c *verifChain) QueryBlock(height uint64) *types.Block          { return nil }
+func (c *verifChain) QueryBlockHeaderByHeight(height interface{}, cache bool) *types.BlockHeader {
+	return nil
+}
+func (c *verifChain) GetBalance(address common.Address) *big.Int { return big.NewInt(0) }
+func (c *verifChain) GetTransaction(txHash common.Hash) (*types.Transaction, error) {
+	return nil, nil
+}
+func (c *verifChain) Close()                                           {}
+func (c *verifChain) GetVerifyHash(height uint64) (common.Hash, error) { return common.Hash{}, nil }
+func (c *verifChain) HasBlockByHash(hash common.Hash) bool {
+	_, ok := c.existing[hash]
+	return ok
+}
+func (c *verifChain) GetBlockHash(height uint64) common.Hash { return common.Hash{} }
+
+// VerifRound is a signing party positioned where a verifier is after it
+// accepted the proposer's cast message: round 0 is done (group, previous and
+// proposed header known), round 1 (share collection) is started.
+type VerifRound struct {
+	r     *round1
+	chain *verifChain
+}
+
+// VerifNewRound1 builds the round the way SignParty.FirstRound / round0.NextRound
+// / round1.Start do, with the outcome of round 0 injected: the verify group,
+// the previous header (its Random is the beacon value the shares must sign)
+// and the proposed header (its Hash is the block hash the shares must sign).
+// Member public shares are looked up by round1.Update through
+// group_create.GroupCreateProcessor (see group_create.VerifInstallJoinedGroups).
+func VerifNewRound1(mi groupsig.ID, group *model.GroupInfo, preBH, bh *types.BlockHeader) *VerifRound {
+	idx := strconv.Itoa(common.InstanceIndex)
+	if stdLogger == nil {
+		InitConsensus()
+	}
+	chain := &verifChain{existing: map[common.Hash]*types.Block{}}
+	partyId := bh.Hash.String()
+	r0 := &round0{
+		baseRound: &baseRound{
+			partyId:        partyId,
+			futureMessages: make(map[string]model.ConsensusMessage),
+			errChan:        make(chan error, 4),
+			done:           make(chan byte, 4),
+			logger:         log.GetLoggerByIndex(log.CLogConfig, idx),
+		},
+		blockchain: chain,
+		changedId:  make(chan string, 4),
+		mi:         mi,
+	}
+	if err := r0.Start(); err != nil {
+		return nil
+	}
+	r0.preBH = preBH
+	r0.bh = bh
+	r0.group = group
+	r0.canProcessed = true
+	r1, ok := r0.NextRound().(*round1)
+	if !ok {
+		return nil
+	}
+	if err := r1.Start(); err != nil {
+		return nil
+	}
+	return &VerifRound{r: r1, chain: chain}
+}
+
+// Update is round1.Update; the returned string is the error text ("" if nil).
+func (v *VerifRound) Update(cvm *model.ConsensusVerifyMessage) string {
+	if err := v.r.Update(cvm); err != nil {
+		return err.Error()
+	}
+	return ""
+}
+
+// CanAccept is round1.CanAccept.
+func (v *VerifRound) CanAccept(msg model.ConsensusMessage) int { return v.r.CanAccept(msg) }
+
+// Threshold is the threshold round1.Start derived for the group.
+func (v *VerifRound) Threshold() int { return v.r.gSignGenerator.threshold }
+
+func sharesOf(g *groupSignGenerator) map[string][]byte {
+	out := make(map[string][]byte, len(g.witnessSignMap))
+	for k, s := range g.witnessSignMap {
+		out[k] = s.Serialize()
+	}
+	return out
+}
+
+// BlockShares is the content of the block-signature share set: member id (hex) -> share bytes.
+func (v *VerifRound) BlockShares() map[string][]byte { return sharesOf(v.r.gSignGenerator) }
+
+// BeaconShares is the content of the random-beacon share set.
+func (v *VerifRound) BeaconShares() map[string][]byte { return sharesOf(v.r.rSignGenerator) }
+
+// BlockSignRecovered / BeaconSignRecovered: groupSignGenerator.SignRecovered.
+func (v *VerifRound) BlockSignRecovered() bool  { return v.r.gSignGenerator.SignRecovered() }
+func (v *VerifRound) BeaconSignRecovered() bool { return v.r.rSignGenerator.SignRecovered() }
+
+// RecoveredBlockSign / RecoveredBeaconSign: serialized recovered signatures (empty before recovery).
+func (v *VerifRound) RecoveredBlockSign() []byte {
+	return v.r.gSignGenerator.GetGroupSign().Serialize()
+}
+func (v *VerifRound) RecoveredBeaconSign() []byte {
+	return v.r.rSignGenerator.GetGroupSign().Serialize()
+}
+
+// CanProceed: the round decided it has what it needs to finalise.
+func (v *VerifRound) CanProceed() bool { return v.r.CanProceed() }
+
+// Header is the proposed header the round works on (Signature / Random are
+// filled in by round1.Update at recovery).
+func (v *VerifRound) Header() *types.BlockHeader { return v.r.bh }
+
+// CheckSignature is round2.checkSignature on the current header: the
+// finaliser's check of the recovered block signature and beacon value under
+// the group public key. Returns "" when it passes.
+func (v *VerifRound) CheckSignature() (res string) {
+	defer func() {
+		if p := recover(); p != nil {
+			res = "panic"
+		}
+	}()
+	r2 := &round2{round1: v.r}
+	if err := r2.checkSignature(v.r.group); err != nil {
+		return err.Error()
+	}
+	return ""
+}
+
+// VerifValidateProve is validateProve: qualification of a VRF proof against
+// the stake ratio, and the quality number.
+func VerifValidateProve(prove vrf.VRFProve, height, workingMiners, totalStake uint64) (bool, uint64) {
+	if stdLogger == nil {
+		InitConsensus()
+	}
+	return validateProve(prove, height, workingMiners, totalStake)
+}
+
+// VerifCalQn is calQn on copies of its arguments (calQn clamps stakeRatio in place).
+func VerifCalQn(vrfValueRatio, stakeRatio *big.Rat) uint64 {
+	return calQn(new(big.Rat).Set(vrfValueRatio), new(big.Rat).Set(stakeRatio))
+}
+
+// VerifCalcStakeRatio is calcStakeRatio.
+func VerifCalcStakeRatio(difficulty, totalStake uint64) *big.Rat {
+	return calcStakeRatio(difficulty, totalStake)
+}
+
+// VerifCalcPotentialProposal is calcPotentialProposal under the node's parameters.
+func VerifCalcPotentialProposal(totalStake uint64) uint64 {
+	return calcPotentialProposal(totalStake, model.Param)
+}
+
+// VerifVerifyBlockVRF is verifyBlockVRF: the proposer's VRF proof as carried
+// by the header's big-integer ProveValue, checked against the previous header.
+func VerifVerifyBlockVRF(bh, preBH *types.BlockHeader, castor *model.MinerInfo, totalStake uint64) (bool, string) {
+	if stdLogger == nil {
+		InitConsensus()
+	}
+	ok, err := verifyBlockVRF(bh, preBH, castor, totalStake)
+	if err != nil {
+		return ok, err.Error()
+	}
+	return ok, ""
+}
+
+// VerifGenVrfMsg is genVrfMsg.
+func VerifGenVrfMsg(random []byte, delta int) []byte { return genVrfMsg(random, delta) }
